@@ -7,6 +7,7 @@ over constructed cell objects `PCell`).  Pruning: Proofs/Prune.lean (`PruneRel`)
 the proof cell's 256-bit field); soundness takes a LOCAL no-collision hypothesis on the representations at hand.
 -/
 import TonVerif.Proofs.Merkle
+import TonVerif.Proofs.OrdCell
 
 namespace TonVerif.Properties.C11
 open TonVerif TonVerif.Model TonVerif.Proofs.CellSpec TonVerif.Proofs.Prune TonVerif.Proofs.Merkle
@@ -316,5 +317,46 @@ example : (∀ x, (toyH x).length = 32) ∧ MFree treeA ∧ (∃ s, specInfo toy
   · exact absurd he (by decide +kernel)
   · exact absurd he (by decide +kernel)
   · rfl
+
+/-! Non-vacuity of `c11_complete`: the hypotheses hold for a concrete cell (pruning nothing) with the toy hash. -/
+def sLeafA : Spec.SInfo := Spec.node toyH .ordinary [true, false] []
+
+theorem leafA_nodeWF : NodeWF toyH .ordinary [true, false] [] := by
+  refine ⟨by decide, by decide, by simp, ?_, by simp, by simp, by simp, by simp⟩
+  intro _ l
+  rw [node_plain toyH .ordinary _ _ (by decide)]
+  have : Spec.nodeMask .ordinary [true, false] [] = 0 := rfl
+  rw [this]
+  show Spec.plainDepthAt .ordinary [] 0 l ≤ 1023
+  rw [TonVerif.Proofs.OrdCell.plainDepthAt_zero]
+  decide
+
+example : specInfo toyH leafA = some sLeafA ∧ PruneRel toyH 1 leafA leafA ∧
+    TreeWF toyH (merkleProofCell (sLeafA.hashAt 0) (sLeafA.depthAt 0) leafA) ∧
+    ((sLeafA.hashAt 0).length = 32 ∧ Bytes.WF (sLeafA.hashAt 0)) ∧ sLeafA.depthAt 0 < 65536 := by
+  have hlen : (sLeafA.hashAt 0).length = 32 := by
+    show (Spec.plainHashAt toyH .ordinary [true, false] [] (Spec.nodeMask .ordinary [true, false] []) 0).length = 32
+    simp only [Spec.plainHashAt, toyH, List.length_take, List.length_append, List.length_replicate]
+    omega
+  have hwf : Bytes.WF (sLeafA.hashAt 0) := by decide +kernel
+  refine ⟨by simp [leafA, sLeafA, specInfo, specInfos, kindOf], ?_, ?_, ⟨hlen, hwf⟩, by decide +kernel⟩
+  · unfold leafA
+    rw [PruneRel]
+    exact Or.inr ⟨.ordinary, [], by decide, rfl, by rw [PruneRels]⟩
+  · unfold merkleProofCell leafA
+    rw [TreeWF]
+    refine ⟨⟨?_, trivial⟩, .merkleProof, [sLeafA], by decide, by simp [specInfos, specInfo, kindOf, sLeafA], ?_⟩
+    · rw [TreeWF]
+      exact ⟨trivial, .ordinary, [], by decide, by simp [specInfos], leafA_nodeWF⟩
+    · have hm : Spec.nodeMask .merkleProof (bytesToBits (mproofData (sLeafA.hashAt 0) (sLeafA.depthAt 0))) [sLeafA] = 0 := by
+        decide +kernel
+      refine ⟨?_, by simp, ?_, ?_, by simp, by simp, by simp, by simp⟩
+      · rw [length_bytesToBits, mproofData_length _ _ hlen]; omega
+      · intro c hc; simp at hc; subst hc; decide +kernel
+      · intro _ l
+        rw [node_plain toyH .merkleProof _ _ (by decide)]
+        simp only [hm]
+        rw [TonVerif.Proofs.OrdCell.plainDepthAt_zero]
+        decide +kernel
 
 end TonVerif.Properties.C11
